@@ -37,6 +37,7 @@ type Clause struct {
 	Loop   int
 	Walk   bool
 	LetVar string
+	Assumed bool // trusted-ensures: assumed at call sites, not checked against the body (listed in the evidence)
 	File   string
 	Line   int
 }
@@ -80,7 +81,7 @@ type Contracts struct {
 }
 
 var clauseKeywords = map[string]bool{"func": true, "requires": true, "ensures": true, "modifies": true, "loop": true, "walk": true,
-	"inline": true, "spec": true, "lemma": true, "trusted": true, "package": true}
+	"inline": true, "trusted-ensures": true, "spec": true, "lemma": true, "trusted": true, "package": true}
 
 var labelRe = regexp.MustCompile(`^\[([A-Z0-9, ]+)\]\s*`)
 var nameRe = regexp.MustCompile(`^([A-Za-z][A-Za-z0-9_.\-]*):\s+`)
@@ -207,6 +208,8 @@ func contractLinesFrom(file, data string) ([]rawLine, string, error) {
 				continue
 			}
 			if !strings.HasPrefix(tl, "@") {
+				// continuation of the previous clause
+				out = append(out, rawLine{"\x00" + tl, file, i + 1})
 				continue
 			}
 			out = append(out, rawLine{strings.TrimPrefix(tl, "@"), file, i + 1})
@@ -232,6 +235,12 @@ func groupClauses(lines []rawLine) []rawLine {
 			continue
 		}
 		first := strings.Fields(t)[0]
+		if strings.HasPrefix(t, "\x00") {
+			if len(out) > 0 {
+				out[len(out)-1].text += " " + t[1:]
+			}
+			continue
+		}
 		if clauseKeywords[first] || len(out) == 0 {
 			out = append(out, rawLine{t, l.file, l.line})
 		} else {
@@ -292,14 +301,19 @@ func (cs *Contracts) parseFile(file, pkgPath string, data string) error {
 			cur.Inline = true
 		case "trusted":
 			cur.Trusted = rest
-		case "requires", "ensures":
+		case "requires", "ensures", "trusted-ensures":
 			if cur == nil {
 				return fmt.Errorf("%s:%d: %s outside func", l.file, l.line, kw)
+			}
+			assumed := kw == "trusted-ensures"
+			if assumed {
+				kw = "ensures"
 			}
 			c, err := mk(kw, rest)
 			if err != nil {
 				return err
 			}
+			c.Assumed = assumed
 			if kw == "requires" {
 				cur.Requires = append(cur.Requires, c)
 			} else {
